@@ -47,16 +47,18 @@ def setup():
     return 0
 
 
-from . import checks2, checks3
+from . import checks2, checks3, checks4
 
 EXTRA = {
     'C03': lambda tier, seed: checks2.run_ledger_check('C03', tier, seed),
     'C17': lambda tier, seed: checks2.run_ledger_check('C17', tier, seed),
     'C19': checks2.run_c19,
     'C13': checks3.run_c13,
+    'C15': checks4.run_c15,
+    'C16': checks4.run_c16,
 }
-REPLAY = {'c13': checks3.replay_c13, 'memcheck': checks.replay_memcheck}
-SETUP = [checks2.setup, checks3.setup]
+REPLAY = {'c13': checks3.replay_c13, 'memcheck': checks.replay_memcheck, 'c15': checks4.replay_c15}
+SETUP = [checks2.setup, checks3.setup, checks4.setup]
 
 
 def claimed():
